@@ -154,6 +154,17 @@ func (e *concEngine) leanName() string { return "conc" }
 // repeated witnesses run up to 200000 iterations (thorough tier) and carry their own progress-based watchdogs
 func (e *concEngine) caseTimeout() time.Duration { return 10 * time.Minute }
 
+// histories are a handful of operations under their own 5 s watchdog, the -race child has its own limit
+func (e *concEngine) caseTimeoutFor(payload string) time.Duration {
+	switch {
+	case strings.HasPrefix(payload, "hist"):
+		return 40 * time.Second
+	case strings.HasPrefix(payload, "race"):
+		return 12 * time.Minute
+	}
+	return 10 * time.Minute
+}
+
 func (e *concEngine) wants(half string) bool { return e.half == "" || e.half == half }
 
 func witIters(tier string) int {
